@@ -201,10 +201,19 @@ func genSpec(t *rapid.T) *vmsg.Spec {
 	n := valfx.CommitteeSize(s.Val)
 	signer := uint64(rapid.IntRange(1, n).Draw(t, "signer"))
 	s.EnvOp = signer
-	if rapid.IntRange(0, 3).Draw(t, "ispartial") == 0 {
+	if rapid.IntRange(0, 9).Draw(t, "nonbeacon") == 0 {
+		// validator registration / voluntary exit: partial signatures only
+		s.Role = rapid.SampledFrom([]int{5, 6}).Draw(t, "nbrole")
+	}
+	if s.Role >= 5 || rapid.IntRange(0, 3).Draw(t, "ispartial") == 0 {
 		s.SSVType = "partial"
 		s.PSigner, s.PCount = signer, 1
 		s.PType = 0
+		// the pre-consensus type that goes with the role, half of the time
+		pre := map[int]int{1: 2, 2: 1, 4: 3, 5: 4, 6: 5}
+		if pt, ok := pre[s.Role]; ok && (s.Role >= 5 || rapid.Bool().Draw(t, "preconsensus")) {
+			s.PType = pt
+		}
 	} else {
 		s.SSVType = "consensus"
 		s.QType = rapid.IntRange(0, 3).Draw(t, "qtype")
@@ -306,7 +315,7 @@ func genWild(t *rapid.T) *vmsg.Spec {
 	}
 	s.PDupRoot = rapid.IntRange(0, 6).Draw(t, "wpdup") == 0
 	s.PSigKind = rapid.SampledFrom([]string{"ok", "ok", "ok", "zero", "short"}).Draw(t, "wpsigkind")
-	s.EnvOp = rapid.SampledFrom([]uint64{1, 1, 1, 2, 3, 4, 7, 13, 14, 0, 1<<64 - 1}).Draw(t, "wenvop")
+	s.EnvOp = rapid.SampledFrom([]uint64{1, 1, 1, 2, 3, 4, 7, 13, 14, 15, 15, 16, 0, 1<<64 - 1}).Draw(t, "wenvop") // 14 unregistered; 15, 16 registered with a malformed key
 	s.EnvSig = rapid.SampledFrom([]string{"valid", "valid", "valid", "valid", "other", "rogue", "garbage", "stale"}).Draw(t, "wenvsig")
 	s.Topic = rapid.SampledFrom([]string{"right", "right", "right", "right", "right", "right", "wrong", "garbage", "empty"}).Draw(t, "wtopic")
 	s.TopicN = rapid.IntRange(0, 127).Draw(t, "wtopicn")
@@ -339,7 +348,37 @@ func genInput(t *rapid.T) Input {
 }
 
 func gen(t *rapid.T) Prog {
-	return Prog{Signed: rapid.Bool().Draw(t, "signed"), Inputs: rapid.SliceOfN(rapid.Custom(genInput), 1, 16).Draw(t, "inputs")}
+	p := Prog{Signed: rapid.Bool().Draw(t, "signed")}
+	n := rapid.IntRange(1, 16).Draw(t, "ninputs")
+	for i := 0; i < n; i++ {
+		var earlier []int
+		for j, in := range p.Inputs {
+			if in.Spec != nil {
+				earlier = append(earlier, j)
+			}
+		}
+		if len(earlier) > 0 && rapid.IntRange(0, 3).Draw(t, "again") == 0 {
+			// an earlier message once more: as it was, from the next signer, in the next round, or through another operator's envelope
+			c := *p.Inputs[rapid.SampledFrom(earlier).Draw(t, "again_which")].Spec
+			switch rapid.IntRange(0, 4).Draw(t, "again_how") {
+			case 1:
+				if c.SSVType == "partial" {
+					c.PSigner++
+				} else if len(c.Signers) == 1 {
+					c.Signers = []uint64{c.Signers[0] + 1}
+				}
+				c.EnvOp++
+			case 2:
+				c.Round++
+			case 3:
+				c.EnvOp = rapid.SampledFrom([]uint64{1, 2, 15, 16}).Draw(t, "again_env")
+			}
+			p.Inputs = append(p.Inputs, Input{Spec: &c})
+			continue
+		}
+		p.Inputs = append(p.Inputs, genInput(t))
+	}
+	return p
 }
 
 func TestPropValidateNoCrash(t *testing.T) { prog.Check(t, "C08", "TestPropValidateNoCrash", gen, run) }
